@@ -285,7 +285,8 @@ def xclass_term(cv, cidx):
     afields = clist([X.afield_term(dict(v, enum=None) if (v["tokens"] or len(v["types"]) != 1) else v) for v in avars],
                     str, "afield")
     atypes = clist([f"({cstr(v['qname'])}, {ftype_term(v)})" for v in avars], str, "(name * ftype)")
-    aa = "None" if not anyattr else f"(Some {fns_term(fns_of(anyattr[0]['namespaces']))})"
+    # XmlMeta.find_any_attributes tries every Attributes var (a derived class may add its own to the inherited one)
+    aa = "None" if not anyattr else f"(Some {fns_term([a for v in anyattr for a in fns_of(v['namespaces'])])})"
     tx = "None" if not text else f"(Some {ftype_term(text[0])})"
     xsi = clist([f"({cstr(q)}, {cnat(cidx[c])})" for q, c in sorted(cv["xsi"].items()) if c in cidx], str, "(name * nat)")
     bases = clist([cnat(i) for b, i in sorted(cidx.items()) if b.partition("@")[0] in cv["bases"]], str, "nat")
@@ -494,6 +495,23 @@ FIXED_WITNESSES = [
 </xs:schema>
 """}, "docs": ['<e xmlns="urn:w">t<a>0A</a>u<a>ff00</a><b>AAEC</b>v</e>', '<w:e xmlns:w="urn:w"><w:a>7478313E</w:a></w:e>',
                '<e xmlns="urn:w">only text</e>']},
+    # C02-F16 (fixed 546b6b2): nillable was lost for an element whose type names a global simpleType
+    {"name": "F16-nillable-named-simple-type", "root": "doc", "sources": {"main.xsd": """<?xml version="1.0" encoding="UTF-8"?>
+<xs:schema xmlns:xs="http://www.w3.org/2001/XMLSchema">
+  <xs:simpleType name="SB"><xs:restriction base="xs:int"><xs:minInclusive value="-5"/></xs:restriction></xs:simpleType>
+  <xs:simpleType name="L"><xs:list itemType="xs:token"/></xs:simpleType>
+  <xs:element name="doc">
+    <xs:complexType>
+      <xs:sequence>
+        <xs:element name="n1" type="SB" nillable="true"/>
+        <xs:element name="n2" type="xs:int" nillable="true"/>
+        <xs:element name="n3" type="L" nillable="true"/>
+      </xs:sequence>
+    </xs:complexType>
+  </xs:element>
+</xs:schema>
+"""}, "docs": ['<doc xmlns:xsi="http://www.w3.org/2001/XMLSchema-instance"><n1 xsi:nil="true"/><n2 xsi:nil="true"/><n3>a b</n3></doc>',
+               '<doc><n1>3</n1><n2>4</n2><n3>x</n3></doc>']},
 ]
 
 
@@ -892,6 +910,9 @@ def explained_by_validator(rr, brejecting):
 
 def classify_codegen(run):
     e = run["res"].get("error") or {}
+    if run["res"].get("status") == "bind_error" and "Compound field contains ambiguous types" in (e.get("message") or "") \
+            and run["oset"]["options"].get("unnest_classes"):
+        return "unnest-mixed-choice-wrapper-reset-to-str"
     if e.get("type") == "ValueError" and "mutable default <class 'xsdata.models.datatype.XmlPeriod'>" in (e.get("message") or ""):
         return "period-default-unhashable-import-fails"
     if e.get("type") == "NoRootClass" and run["oset"]["options"].get("structure_style") == "namespaces" \
